@@ -214,7 +214,7 @@ def run(ctx):
             text = s.to_ascii()
             g2, s2 = outcome(text)
         except Exception as exc:
-            ctx.violation('roundtrip:to_ascii-raised', 'formatting a parsed source raised: %r' % (exc,), {'line': line})
+            ctx.raised(exc, 'roundtrip:to_ascii-raised', 'formatting a parsed source raised: %r' % (exc,), {'line': line})
             continue
         ctx.event('roundtrip:ascii')
         if g2 != 'ok':
@@ -241,7 +241,7 @@ def run(ctx):
             s4 = pickle.loads(pickle.dumps(s, 2))
             ctx.event('roundtrip:pickle')
         except Exception as exc:
-            ctx.violation('roundtrip:dict-pickle-raised', 'dict/pickle round trip raised: %r' % (exc,), {'line': line})
+            ctx.raised(exc, 'roundtrip:dict-pickle-raised', 'dict/pickle round trip raised: %r' % (exc,), {'line': line})
             continue
         c0 = probe.canon_source(s)
         for label, t in (('dict', s3), ('pickle', s4)):
